@@ -20,7 +20,7 @@ func init() {
 			"methods with parameters or non-comparable results under `returns` are outside the documented tag",
 			"ties between several admissible providers of a single-valued point are decided by C08/C10, here any admissible one is accepted",
 		},
-		Parts: []Part{{Name: "typed", Run: c06Run, QuickS: 90, ThoroughS: 1200}, {Name: "named-pointer-types", Run: c06Named, Workers: 2, QuickS: 30, ThoroughS: 60}, {Name: "re-registered-definitions", Run: c06ReReg, Workers: 2, QuickS: 30, ThoroughS: 60}},
+		Parts: []Part{{Name: "typed", Run: c06Run, QuickS: 90, ThoroughS: 1200}, {Name: "named-pointer-types", Run: c06Named, Workers: 2, QuickS: 30, ThoroughS: 60}, {Name: "re-registered-definitions", Run: c06ReReg, Workers: 2, QuickS: 30, ThoroughS: 60}, {Name: "func-star-with-parameters", Run: c06FuncStar, Workers: 2, QuickS: 30, ThoroughS: 60}},
 	})
 }
 
